@@ -30,11 +30,13 @@ type crashObs struct {
 	err  string
 }
 
-func crashRun(c c03Cfg, threads [][]c03Event, o *crashObs, stop bool) {
+func crashRun(c c03Cfg, threads [][]c03Event, o *crashObs, stop bool, faultOp string) {
 	x := zzvrt.Cur()
-	// only file creations may fail (a failed write/sync is an environment failure the property does
-	// not cover; a failed creation must leave the appender writing to the file it has)
-	x.FS.FaultOps = map[string]bool{"open": true}
+	// "open": only file creations may fail (a failed creation must leave the appender writing to the file
+	// it has). "write": a write call may be refused as a whole (transient EIO / ENOSPC): the line of THAT
+	// call is excused, every other acknowledged line still has to be in the target
+	x.FS.FaultOps = map[string]bool{faultOp: true}
+	x.FS.NoShortWrites = true
 	zzvrt.Atomic(func() {
 		log.TimeNow = c03Time
 		x.FS.MkdirAll("/logs")
@@ -78,7 +80,11 @@ func crashTarget(x *zzvrt.Exec, c c03Cfg) string {
 	return sb.String()
 }
 
-func crashScenario(c c03Cfg, b zzvrt.Bounds) *zzvrt.Scenario {
+func crashScenario(c c03Cfg, b zzvrt.Bounds, faultOps ...string) *zzvrt.Scenario {
+	faultOp := "open"
+	if len(faultOps) > 0 {
+		faultOp = faultOps[0]
+	}
 	var all []c03Event
 	for _, t := range c.threads {
 		all = append(all, t...)
@@ -86,7 +92,7 @@ func crashScenario(c c03Cfg, b zzvrt.Bounds) *zzvrt.Scenario {
 	// reference lines: each event formatted alone
 	resetAll()
 	var ro crashObs
-	rx := zzvrt.Run(func() { crashRun(c, [][]c03Event{all}, &ro, true) }, nil, zzvrt.RunOpts{Bounds: zzvrt.Bounds{Horizon: 100000}})
+	rx := zzvrt.Run(func() { crashRun(c, [][]c03Event{all}, &ro, true, faultOp) }, nil, zzvrt.RunOpts{Bounds: zzvrt.Bounds{Horizon: 100000}})
 	lineOf := map[string]string{}
 	isLine := map[string]bool{}
 	for _, l := range strings.SplitAfter(crashTarget(rx, c), "\n") {
@@ -100,7 +106,7 @@ func crashScenario(c c03Cfg, b zzvrt.Bounds) *zzvrt.Scenario {
 	var o crashObs
 	return &zzvrt.Scenario{
 		Before: func() { resetAll(); o = crashObs{} },
-		Body:   func() { crashRun(c, c.threads, &o, false) },
+		Body:   func() { crashRun(c, c.threads, &o, false, faultOp) },
 		Opts:   zzvrt.RunOpts{Bounds: b},
 		Check: func(x *zzvrt.Exec) (string, []zzvrt.Violation) {
 			key := c.sink + "/" + c.layout
@@ -112,8 +118,17 @@ func crashScenario(c c03Cfg, b zzvrt.Bounds) *zzvrt.Scenario {
 				return o.err, []zzvrt.Violation{{Clause: "setup", Key: key, Detail: fmt.Sprintf("err=%q reference lines=%d/%d", o.err, len(lineOf), len(all))}}
 			}
 			content := crashTarget(x, c)
+			// lines whose own write call was refused by an injected fault are excused
+			refused := func(payload string) bool {
+				for _, call := range x.FS.Log {
+					if call.Op == "write" && strings.Contains(call.Err, "injected") && strings.Contains(call.Data, payload) {
+						return true
+					}
+				}
+				return false
+			}
 			for _, a := range o.acks {
-				if !strings.Contains(content, lineOf[a]) {
+				if !strings.Contains(content, lineOf[a]) && !refused(a) {
 					v = append(v, zzvrt.Violation{Clause: "acknowledged-line-missing", Key: key,
 						Detail: fmt.Sprintf("outcome=%q: call for %q had returned but its line is not in the target (target=%q)", x.Outcome, a, content)})
 				}
@@ -178,6 +193,18 @@ func init() {
 							b.Preempt = 2
 						}
 						return crashScenario(c03Cfg{layout: layout, sink: sink, threads: shapes[shape]}, b)
+					})
+				}
+				if shape == "1x3" {
+					// transient write faults before the crash point: a refused write loses its own line only
+					register("C20", fmt.Sprintf("c20/%s/%s/%s/transient-write-faults", sink, layout, shape), "qt", func(tier string) *zzvrt.Scenario {
+						b := zzvrt.Bounds{Preempt: 1, Horizon: 5000}
+						b.Env[zzvrt.SeamCrash] = 1
+						b.Env[zzvrt.SeamFault] = 1
+						if tier == "thorough" {
+							b.Env[zzvrt.SeamFault] = 2
+						}
+						return crashScenario(c03Cfg{layout: layout, sink: sink, threads: shapes[shape]}, b, "write")
 					})
 				}
 				if sink == "rolling" && shape == "1x3" {
